@@ -84,3 +84,37 @@ def emit_mir():
     info = dict(source_digest=key[1], build_s=round(time.time() - t0, 1), mir_bytes=len(text))
     _CACHE[key] = (text, info)
     return text, info
+
+
+def build_so():
+    """Path of a freshly built extension file that stays on disk until this process exits (for sub-processes)."""
+    import atexit
+    key = ("so", source_digest())
+    if key in _CACHE:
+        return _CACHE[key]
+    t0 = time.time()
+    d = _scratch_copy(with_target=True)
+    try:
+        env = dict(os.environ, CARGO_NET_OFFLINE="true")
+        r = subprocess.run(["cargo", "build", "--release", "--offline", "--features", "pyo3/extension-module"],
+                           cwd=d / "rust", capture_output=True, text=True, env=env, timeout=1500)
+        if r.returncode != 0:
+            raise RuntimeError("cargo build failed:\n" + r.stderr[-2000:])
+        base = os.environ.get("VT_SCRATCH") or tempfile.gettempdir()
+        keep = Path(tempfile.mkdtemp(prefix="vt_ext_", dir=base))
+        dst = keep / "_sedpack_rs.cpython-312-x86_64-linux-gnu.so"
+        shutil.copy(d / "rust" / "target" / "release" / "libsedpack_rs.so", dst)
+    finally:
+        shutil.rmtree(d, ignore_errors=True)
+    atexit.register(lambda: shutil.rmtree(keep, ignore_errors=True))
+    info = dict(source_digest=key[1], build_s=round(time.time() - t0, 1))
+    _CACHE[key] = (str(dst), info)
+    return _CACHE[key]
+
+
+def load_so(path):
+    loader = importlib.machinery.ExtensionFileLoader("_sedpack_rs", str(path))
+    spec = importlib.util.spec_from_file_location("_sedpack_rs", str(path), loader=loader)
+    mod = importlib.util.module_from_spec(spec)
+    loader.exec_module(mod)
+    return mod
